@@ -26,6 +26,8 @@ func main() {
 		probeCmd(os.Args[2:])
 	case "extract":
 		extractCmd(os.Args[2:])
+	case "race":
+		raceCmd(os.Args[2:])
 	default:
 		fatal("unknown command %q", os.Args[1])
 	}
@@ -42,7 +44,13 @@ func runCmd(args []string) {
 	replay := fs.String("replay", "", "replay file")
 	_ = fs.String("repo", "/repo", "repository root")
 	maxFail := fs.Int("maxfail", 3, "replays kept per signature")
+	inflight := fs.String("inflight", "", "journal of the case being run (survives a crash of this process)")
 	_ = fs.Parse(args)
+	if *inflight != "" {
+		if f, err := os.Create(*inflight); err == nil {
+			inflightFile, inflightProp = f, *prop
+		}
+	}
 	run, ok := props[*prop]
 	if !ok {
 		fatal("no harness for property %q", *prop)
@@ -60,6 +68,13 @@ func runCmd(args []string) {
 	run(ctx)
 	for _, extra := range propsExtra[*prop] {
 		extra(ctx)
+	}
+	if inflightFile != nil {
+		// a normal end: nothing is in flight
+		name := inflightFile.Name()
+		_ = inflightFile.Close()
+		_ = os.Remove(name)
+		inflightFile = nil
 	}
 	res.WallS = time.Since(start).Seconds()
 	res.DistinctNontrivial = len(res.nontrivial)
